@@ -27,7 +27,7 @@ CFGS = {
 def tcfg(name, k):
     _, peers, L = CFGS[name]
     # where the validator set changes (0 = never); chosen per behaviour, the specification abstracts from it
-    change = [0] + list(range(2, L + 1))
+    change = [2, 0] + list(range(2, L + 1))
     return {'L': L, 'ChangeAt': change[k % len(change)], 'Peers': peers, 'Variant': k}
 
 
